@@ -125,6 +125,7 @@ pub fn label_of(l: &str, pe_tx: &mut usize, pe_rx: &mut usize) -> String {
     if l == "HOOK take" { return "hook1".to_owned(); }
     if l == "HOOK restore" { return "hook0".to_owned(); }
     if l == "EXIT" { return "exit".to_owned(); }
+    if let Some(r) = l.strip_prefix("VERDICT ") { return format!("verdict {r}"); }
     if let Some(r) = l.strip_prefix("CB ") {
         let t: Vec<&str> = r.split(' ').collect();
         let time = t.iter().find_map(|x| x.strip_prefix("t=")).unwrap_or("0");
@@ -286,7 +287,7 @@ pub fn sched_request(sg: &SchedGen, log: &[String]) -> String {
     format!("sched.run {} {}", show_cfg(&sg.g), show_list(&labels, |x| x.clone()))
 }
 
-pub const CLEAN: &str = "- ; - ; - ; - ; - ; - ; - ; ok ; ok ; ok ; ok ; ok ; ok ; ok";
+pub const CLEAN: &str = "- ; - ; - ; - ; - ; - ; - ; ok ; ok ; ok ; ok ; ok ; ok ; ok ; ok";
 
 pub fn gen_sched_case(rng: &mut Rng, idx: usize) -> Case {
     sched_case(rng, idx, false)
